@@ -11,7 +11,7 @@
    wf_focus t = every focused-child link names a VISIBLE child of its window; wf_links =
    ... names a child; flush_pre st = the state after the queued restacks were applied). *)
 From Coq Require Import ZArith List Bool.
-From Tickit Require Import RectDefs WinRectSet WinDefs WinSpec WinHist WinFocusProofs.
+From Tickit Require Import RectDefs WinRectSet WinDefs WinSpec WinHist WinFocusProofs WinPreserve WinFocusHistA WinFocusHistB WinFocusHistory.
 Import ListNotations.
 Local Open Scope Z_scope.
 
@@ -45,15 +45,46 @@ Theorem C15_flush_idle : forall cfg hnd st tm st' tm' lg,
 Proof. exact WinFocusProofs.C15_flush_idle. Qed.
 Print Assumptions C15_flush_idle.
 
-(* FULL STATEMENT of the history clause (C15_after_flush over histories): for every history
-   of the alphabet, after each flush cursor_of (terminal) = cursor_spec (tree).  It follows
-   from C15_after_flush / C15_flush_idle by induction PROVIDED every operation that changes
-   cursor_spec sets needs_restore or adds damage (DESIGN's C15_requested).  That lemma is NOT
-   proved: it needs, per operation, the locality argument of C01 (WinPreserve.v) applied to
-   the cursor cell; the three places where the pinned code violated it (show / hide / close
-   changing the focus chain of a window without visible area) were found by the
-   correspondence check and repaired (#29).  This clause is therefore covered by testing
-   (cursor compared with cursor_spec after every flush of every generated history). *)
+(* The history clause.  FInvM m: the tree is well-formed (unique ids, focus links name visible
+   children, visible root at the origin), the flags are consistent with the damage and the
+   queue, and the cursor is where cursor_spec puts it OR a flush that will re-establish it is
+   pending (needs_later with needs_restore or needs_expose).
+   C15_requested: every operation of the alphabet -- take_focus, the cursor / control setters,
+   show, hide, the restack requests, move / resize / set_geometry with the exposes of old and
+   new area, close, expose, new -- keeps FInvM: whenever it changes cursor_spec it requests a
+   restore or adds damage (op_side: fresh ids, not on the root, geometry with its exposes).
+   C15_flush: every flush (any handlers, any restack queue) ends with the cursor exactly at
+   cursor_spec.  C15_history / C15_history_flushed: by induction over any history of that
+   alphabet with flushes at arbitrary points (the scrolls and the terminal resize are not in
+   C15's alphabet). *)
+Theorem C15_requested : forall progs o m,
+  FInvM m -> op_side (m_root m) o -> r_fault (m_root (step no_defects progs o m)) = false ->
+  FInvM (step no_defects progs o m) /\ m_term (step no_defects progs o m) = m_term m.
+Proof. exact WinFocusHistory.C15_requested. Qed.
+Print Assumptions C15_requested.
+
+Theorem C15_flush : forall hnd st tm st' tm' lg,
+  FInv st tm -> win_flush no_defects hnd st tm = (st', tm', lg) -> r_fault st' = false ->
+  cursor_of tm' = cursor_spec (r_tree st') /\ FInv st' tm'.
+Proof. exact flush_FInv. Qed.
+Print Assumptions C15_flush.
+
+Theorem C15_history : forall progs ops m,
+  FInvM m -> focus_run_ok progs ops m -> FInvM (run no_defects progs ops m).
+Proof. exact WinFocusHistory.C15_history. Qed.
+Print Assumptions C15_history.
+
+Theorem C15_history_flushed : forall progs ops m,
+  FInvM m -> focus_run_ok progs (ops ++ [OFlush]) m ->
+  let m' := run no_defects progs (ops ++ [OFlush]) m in
+  cursor_of (m_term m') = cursor_spec (r_tree (m_root m')).
+Proof. exact WinFocusHistory.C15_history_flushed. Qed.
+Print Assumptions C15_history_flushed.
+
+Theorem C15_init : forall nl nc orc, 0 < nl -> 0 < nc ->
+  r_fault (m_root (m_init nl nc orc)) = false -> FInvM (m_init nl nc orc).
+Proof. exact WinFocusHistory.C15_init. Qed.
+Print Assumptions C15_init.
 
 (* when focus moves every OUT precedes every IN -- any defect configuration, any tree *)
 Theorem C15_focus_order : forall cfg chain child tree tree' evs rs,
